@@ -850,3 +850,62 @@ def data_aliases_inlined(fn):
     ast.fix_missing_locations(new)
     set_parents(new)
     return new
+
+
+def single_locals_inlined(node, only_in=None):
+    """a copy of `node` (module, class or function) in which, per function, a local that is assigned exactly once (declarations `a, b = declare(...)` aside) at the top level
+    of the function, from an expression over parameters / constants / array elements that the function never stores to, is written out where it is used:
+    `i4 = 4*d_idx; d_p[i4 + i] = 0` is `d_p[4*d_idx + i] = 0`; `nd = d_n[d_idx]; if nd > eps: d_p[d_idx] /= nd` is the same test and division on d_n[d_idx]"""
+    from . import norm as N_
+    new = N_.clone(node)
+    for fn in [f for f in ast.walk(new) if isinstance(f, ast.FunctionDef)]:
+        if only_in is not None and fn.name not in only_in:
+            continue
+        params = set(a.arg for a in fn.args.args)
+        stores = {}
+        stored_arrays = set()
+        for x in ast.walk(fn):
+            if isinstance(x, ast.Assign) and isinstance(x.value, ast.Call) and isinstance(x.value.func, ast.Name) and x.value.func.id == 'declare':
+                continue
+            tg = []
+            if isinstance(x, ast.Assign):
+                tg = x.targets
+            elif isinstance(x, (ast.AugAssign, ast.AnnAssign)):
+                tg = [x.target]
+            elif isinstance(x, ast.For):
+                tg = [x.target]
+            for t_ in tg:
+                for y in ast.walk(t_):
+                    if isinstance(y, ast.Name) and isinstance(y.ctx, ast.Store):
+                        stores[y.id] = stores.get(y.id, 0) + 1
+                    if isinstance(y, ast.Subscript) and isinstance(y.ctx, ast.Store) and isinstance(y.value, ast.Name):
+                        stored_arrays.add(y.value.id)
+        good = {}
+        drop = []
+        for st in fn.body:
+            if isinstance(st, ast.Assign) and len(st.targets) == 1 and isinstance(st.targets[0], ast.Name) and stores.get(st.targets[0].id) == 1 and st.targets[0].id not in params:
+                v = st.value
+                names = [y for y in ast.walk(v) if isinstance(y, ast.Name)]
+                pure = all(isinstance(y, (ast.Name, ast.Constant, ast.BinOp, ast.UnaryOp, ast.Subscript, ast.operator, ast.unaryop, ast.expr_context, ast.Attribute)) for y in ast.walk(v))
+                if pure and all(y.id in params or y.id in good or y.id == 'self' for y in names) and not any(isinstance(y, ast.Subscript) and isinstance(y.value, ast.Name) and y.value.id in stored_arrays
+                                                                                                        for y in ast.walk(v)):
+                    # written out through the locals already expanded
+                    class R0(ast.NodeTransformer):
+                        def visit_Name(self, n):
+                            if isinstance(n.ctx, ast.Load) and n.id in good:
+                                return N_.clone(good[n.id])
+                            return n
+                    good[st.targets[0].id] = R0().visit(N_.clone(v))
+                    drop.append(st)
+        if not good:
+            continue
+
+        class R(ast.NodeTransformer):
+            def visit_Name(self, n):
+                if isinstance(n.ctx, ast.Load) and n.id in good:
+                    return ast.copy_location(N_.clone(good[n.id]), n)
+                return n
+        fn.body = [R().visit(st) for st in fn.body if st not in drop] or [ast.Pass()]
+        ast.fix_missing_locations(fn)
+    set_parents(new)
+    return new
